@@ -834,7 +834,8 @@ pub fn drive_main<P: Property>(p: &P, args: &Args) -> i32 {
     });
     let evdir = verif_root().join("evidence");
     let _ = std::fs::create_dir_all(&evdir);
-    let _ = std::fs::write(evdir.join(format!("{id}.json")), serde_json::to_string_pretty(&ev).unwrap());
+    let ev_name = std::env::var("VERIF_EVIDENCE_AS").unwrap_or_else(|_| id.to_string());
+    let _ = std::fs::write(evdir.join(format!("{ev_name}.json")), serde_json::to_string_pretty(&ev).unwrap());
 
     println!(
         "{id}: tier={} seed={} cases={} evaluations={} distinct_nontrivial={} discarded={} inconclusive={} known_hits={} wall={:.1}s",
